@@ -122,7 +122,7 @@ def ops_for(typ, case):
         extra = ["read_id", "read_all", "read_byte", "write_byte"] + (["read_block", "write_block", "read_segment"]
                                                                       if case.layout.dynamic else [])
     elif typ == "t2":
-        extra = ["read", "write"]
+        extra = ["read", "write"] + (["read_beyond"] if case.total // 4 + 11 <= 255 else [])
     elif typ == "t3":
         extra = ["polling", "read_blocks", "write_blocks", "format_default", "format_wipe_wide"]
     else:
@@ -206,6 +206,8 @@ def do_op(nfc, w, tag, op, case, arg):
         return "ok"
     if op == "read_segment":
         return bytes(tag.read_segment(arg["addr"] % max(1, case.layout.size // 128)))
+    if op == "read_beyond":
+        return bytes(tag.read((case.total // 4 + 3 + arg["addr"] % 8) & 0xFF))      # a page the tag does not have: NAK
     if op == "read":
         return bytes(tag.read(arg["addr"] % (case.total // 4 - 3)))
     if op == "write" and case.kind == "ntag":
@@ -236,7 +238,7 @@ IDEMPOTENT_OPS = {"ndef_read", "is_present", "dump", "read_id", "read_all", "rea
 # the tag changes state when it executes these (write counter, session): a lost *response* may legitimately fail
 NON_IDEMPOTENT = {"write_with_mac", "authenticate", "protect_pw", "read_with_mac", "authenticate_wrong",
                   "auth_ndef_read", "auth_ndef_write", "auth_dump"}
-ERROR_AS_SIGNAL = {"auth_ndef_read", "auth_ndef_write", "auth_dump", "dump", "format", "format_wipe", "format_default", "format_wipe_wide", "activate", "is_present", "ndef_read", "protect", "ndef_write"}
+ERROR_AS_SIGNAL = {"read_beyond", "auth_ndef_read", "auth_ndef_write", "auth_dump", "dump", "format", "format_wipe", "format_default", "format_wipe_wide", "activate", "is_present", "ndef_read", "protect", "ndef_write"}
 PRIMITIVES = {"read_id", "read_all", "read_byte", "write_byte", "read_block", "write_block", "read_segment",
               "read", "write", "polling", "read_blocks", "write_blocks", "send_apdu", "select_read"}
 
@@ -262,6 +264,8 @@ def run_one(sim, params):
     if typ == "t2" and sim.chance("t2.big", 0.3):
         kw["big"] = True        # more than one sector: SECTOR SELECT is part of the operations
     case = gen.GENERATORS[typ](sim, **kw)
+    if typ == "t2":
+        case.nak_value = sim.pick("t2.nak", [0x00, 0x00, 0x01, 0x04, 0x05])       # products answer different NAK codes
     if typ == "t4" and sim.chance("t4.wtx", 0.3):
         case.wtx_every = sim.pick("t4.wtx.every", [1, 3])      # the card asks for waiting time extensions
         sim.probe("t4.card_uses_wtx")
@@ -318,6 +322,10 @@ def scenario(sim, params, nfc, typ, case, fixed_os):
         return
     if sim.sample is None:
         sim.sample = {"case": desc, "fault_free_outcome": base["out"], "exchanges": base["m"]}
+    if op == "read_beyond" and not (base["out"] == "tagerror" and base["val"].errno == 2):
+        raise Violation("errno", "%s read_beyond nak" % base["cls"],
+                        "READ of a page the tag does not have is answered by NAK %Xh: expected Type2TagCommandError "
+                        "INVALID_PAGE_ERROR, got %s %r; %r" % (getattr(case, "nak_value", 0), base["out"], base["val"], desc))
     if base["out"] in ("raw-comm-error", "raised"):
         raise Violation("fault-free-raised", "%s %s %s" % (base["cls"], op, type(base["val"]).__name__),
                         "fault-free %s on %s raised %r (%s); %r" % (op, base["cls"], base["val"],
